@@ -12,6 +12,7 @@
 #include "verif_harness.h"
 #include "stub_sponge_spec.h"
 #include "stub_permute_spec.h"
+#include "spec_perm.h"
 
 stub_log_t stub_absorb_log, stub_squeeze_log;
 const void *stub_long_buf;
@@ -105,6 +106,16 @@ void h_cxof_kdf(void)
         FN(kdf)(out, VERIF_OUTLEN, a, alen, b, blen);
 #else
         unsigned char m[4]; for (i = 0; i < 4; ++i) m[i] = nondet_u8();
+#if VERIF_OUTLEN == 32
+        {   /* output length 32 is served from a pre-computed block (a concrete table): the abstract permutation is
+             * instantiated AT THAT ONE POINT with the reference permutation (which ascon_permute equals, C08), so that
+             * the table (proved == ref_permute(IV block) by the kmac_table groups) and the reference composition meet */
+            spec_state iv, pv, rv;
+            iv.x[0] = (((uint64_t)XIVHI) << 32) | 256u; iv.x[1] = 0x4b4d414300000000ULL; iv.x[2] = iv.x[3] = iv.x[4] = 0;
+            pv = spec_P(iv, 0); rv = ref_permute(iv, 0);
+            __CPROVER_assume(pv.x[0] == rv.x[0] && pv.x[1] == rv.x[1] && pv.x[2] == rv.x[2] && pv.x[3] == rv.x[3] && pv.x[4] == rv.x[4]);
+        }
+#endif
         h = R_cxof("KMAC", b, blen, VERIF_OUTLEN); R_absorb(&h, a, alen); R_absorb(&h, m, 4);
         h = spec_sponge_squeeze_v(&PP, h, exp, VERIF_OUTLEN);
         FN(kmac)(a, alen, m, 4, b, blen, out, VERIF_OUTLEN);
